@@ -167,6 +167,28 @@ func short(b []byte) string {
 	return fmt.Sprintf("%x..(%d)", b[:24], len(b))
 }
 
-func init() { _ = netsim.OK }
+// detMask is the deterministic mask-key source installed for every execution (the checks own
+// all nondeterminism; C02 installs its recording source on top and separately asserts that
+// the package's own source is crypto/rand.Reader).
+type detMask struct{ pos int }
+
+//go:norace
+func (m *detMask) Read(p []byte) (int, error) {
+	for i := range p {
+		p[i] = maskStreamByte(m.pos + i + 1000)
+	}
+	m.pos += len(p)
+	return len(p), nil
+}
+
+var theDetMask = &detMask{}
+var maskRandWasCrypto bool
+
+func init() {
+	_ = netsim.OK
+	maskRandWasCrypto = websocket.VerifMaskRandIsCryptoRand()
+	websocket.VerifSetMaskRand(theDetMask)
+	explore.OnExecStart = func() { theDetMask.pos = 0 }
+}
 
 func addrOf(b []byte) uintptr { return uintptr(unsafe.Pointer(&b[0])) }
